@@ -29,6 +29,13 @@ def make_wl(rng, k):
         opts.pop("model_strategy", None)
         opts.pop("extra", None)
         spec["polya"] = 1
+    if k is not None and k % 5 == 2:
+        # killed right after the counters of a chromosome were dumped (their .stats files are written), before that chromosome is
+        # marked as processed; the resumed run processes the chromosome again
+        opts["force_fault"] = {"kind": "kill", "stage": "construct", "label_rx": r"_counts\.tsv\.stats$", "nth": -1 - (k // 5) % 3,
+                               "phase": "after"}
+        spec["n_chr"] = max(3, spec.get("n_chr", 3))
+        spec["n_exp"] = 1
     # multi-mapped reads whose kept record(s) name one gene but two isoforms (labels vs. number of features)
     spec["ambig_multi"] = rng.choice([2, 4, 6])
     return spec, opts
